@@ -39,10 +39,10 @@ class C02(Prop):
             items = {"arr": rng.choice([[], [5], [3, 1, 2]]), "str": rng.choice(["", "a", "héy"]),
                      "hash": rng.choice([{}, {"b": 2, "a": 1}, {"k": 0}]), "range": rng.choice([(0, 0), (1, 3)])}[kind]
             return ("foreach", kind, items, blk(), rng.random() < 0.5)
-        subj = rng.choice([0, 1, 2, "a", "ab"])
+        subj = rng.choice([0, 1, 2, "a", "ab", 1, "a", [1, 2], ["1, 2"], {"a": 1}, "[1, 2]"])
         arms = []
         for _ in range(rng.randint(1, 3)):
-            vals = [rng.choice([0, 1, 2, 3, "a", "ab", "b", ("re", "/^a/")]) for _ in range(rng.randint(1, 2))]
+            vals = [rng.choice([0, 1, 2, 3, "a", "ab", "b", ("re", "/^a/"), 1, "a", [1, 2], ["1, 2"], ["1", "2"], {"a": 1}, {"a": "1"}, "[1, 2]"]) for _ in range(rng.randint(1, 2))]
             arms.append((vals, blk()))
         dflt = blk() if rng.random() < 0.6 else None
         return ("switch", subj, arms, dflt, rng.randint(0, len(arms)))
